@@ -31,6 +31,11 @@ Theorem C05_chunking_independent : forall c1 c2 fi,
 Proof. exact tcp_chunking_independent. Qed.
 Print Assumptions C05_chunking_independent.
 
+(* the Spec itself: a stream of complete, well-formed frames is cut into exactly those frames *)
+Theorem C05_spec_frames : forall pre fs fi, framed pre fs -> ref_frames pre fi = (fs, end_of fi).
+Proof. exact ref_frames_framed. Qed.
+Print Assumptions C05_spec_frames.
+
 (* After any number of complete frames, a header with protocol id <> 0, length 0 or length > 254
    ends the run exactly there with a BadFrame error (never an internal error), whatever follows
    it and however the stream is cut; the frames before it are all delivered. The session (server)
